@@ -115,6 +115,18 @@ def check(ctx: Ctx) -> str:
     app = [c for c in astq.calls(sp.node) if astq.callee(c) == "pieces.append"]
     ok = bool(app) and any(("piece and piece != '.'" in g and pol) for g, pol in astq.guard_texts(sp.node, app[0]))
     ctx.check(ok, "drop:empty-dot", "loaders:split_template_path", "drops '' and '.'", "empty and '.' segments must be dropped", sp.loc())
+    # check-then-use: what is appended (and later joined into a file name) is the very value
+    # that passed the tests - a transformation after the check (normalisation, unquoting,
+    # case folding, stripping) can turn an accepted segment into '..' or add a separator
+    loopvars = {ast.unparse(n_.target) for n_ in ast.walk(sp.node) if isinstance(n_, ast.For)}
+    for c in app:
+        arg = c.args[0] if c.args else None
+        same = isinstance(arg, ast.Name) and arg.id in loopvars
+        rebound = [a for a in ast.walk(sp.node) if isinstance(a, (ast.Assign, ast.AugAssign)) and isinstance(arg, ast.Name) and any(isinstance(t_, ast.Name) and t_.id == arg.id for t_ in (a.targets if isinstance(a, ast.Assign) else [a.target]))]
+        ctx.check(same and not rebound, "append:checked-value", "loaders:split_template_path", f"appends `{ast.unparse(arg) if arg is not None else '?'}`",
+                  f"split_template_path appends `{ast.unparse(arg) if arg is not None else '?'}` instead of the segment that was checked: a transformation after the separator / '..' test (e.g. Unicode normalisation: U+FF0E U+FF0E becomes '..') re-introduces path traversal", sp.loc(c))
+    rets = astq.returns(sp.node)
+    ctx.check(len(rets) == 1 and ast.unparse(rets[0].value) == "pieces", "return:pieces", "loaders:split_template_path", "returns the checked list", "split_template_path must return the list of checked segments unchanged", sp.loc())
 
     ctx.rule("R3", "paths are built with posixpath.join(search root, *sanitised pieces)")
     for cname in ("FileSystemLoader", "PackageLoader"):
